@@ -238,7 +238,7 @@ def check(tier, seed):
     codes = [r['id'] for r in t5_attrtable.table()]
     rng = random.Random(seed)
     sessions = c02.make_sessions()
-    bases = 2 if tier == 'quick' else 120
+    bases = 2 if tier == 'quick' else 25
     cases = []
     for code in codes:
         for b in range(bases):
@@ -304,7 +304,7 @@ def check(tier, seed):
     seen = {}
     for i, sig, what in bad:
         # one replay per kind of failure and attribute code, the smallest body
-        key = re.sub(r':(len\+1|len-1|len0|flag-optional|flag-transitive|value|truncate-header|overrun|duplicate)$', '', sig)
+        key = ':'.join(sig.split(':')[:2])  # C08:<kind of failure>; attribute code and fault are in the replay
         if key not in seen or len(cases[i]['body']) < len(cases[seen[key][0]]['body']):
             seen[key] = (i, sig, what)
     for key, (i, sig, what) in sorted(seen.items()):
